@@ -79,9 +79,11 @@ Definition parse_core (t : bytes) : option core :=
   | [] => None
   end.
 
-Definition precedenceRC : Z := 1.
-Definition precedenceESR : Z := 2.
-Definition precedenceUnknown : Z := 99.
+(* the switch's default branch (Go: precedenceUnknown), generated from the Go source; the
+   generator evaluates the named constants, so the table below holds the values of
+   precedenceRC / precedenceESR *)
+Definition precedenceUnknown : Z :=
+  Eval cbv delta [Verif.Gen.Tables.mattermost_getQualifierPrecedence_default] in Verif.Gen.Tables.mattermost_getQualifierPrecedence_default.
 
 (* getQualifierPrecedence *)
 (* generated from the Go source on every run (tools/gen -> Gen/Tables.v) *)
@@ -93,6 +95,10 @@ Definition qualifier_precedence (q : bytes) : Z :=
   | Some p => p
   | None => precedenceUnknown
   end.
+
+(* Go's named constants are what the switch returns for their clauses *)
+Definition precedenceRC : Z := qualifier_precedence $"rc".
+Definition precedenceESR : Z := qualifier_precedence $"esr".
 
 (* compareQualifiers: no qualifier is greatest; otherwise (precedence, number) *)
 Definition qkey (c : core) : option (Z * Z) :=
